@@ -129,6 +129,8 @@ def _eval(spec, s):
                     d = min(p.get("sleep", 1.0) * (p.get("exponent", 2.0) ** (attempt - 1)), p.get("max_sleep", 120))
                     st["sleep"] += d
                     st["delays"].append(d)
+                elif p and p.get("kind") == "base":
+                    return o
                 elif p:
                     if p.get("raise_should") == attempt:
                         return o
